@@ -193,10 +193,48 @@ static void long_addresses()
     vp::bound("long_addresses", "address of every length 1..247: record, merge within 1 s, no merge after 3 s, merge across an event of another address, undo 3, redo 3");
 }
 
+// ---- a full history undone and redone by ONE seek: 20 (and 25: the cap) events on distinct addresses of length A, event message spelled
+// "/undo_change" (what the library's ports emit) and "undo_change" (what example/complex records); different addresses recorded within the
+// same second must not merge
+static void full_seeks()
+{
+    if(vp::ctx().shard != 0) return;
+    for(int A : {3, 10, 24, 40, 42, 43, 44, 48, 60, 100, 150, 200, 240}) for(int n : {5, 20, 25}) for(int spell = 0; spell < 2; ++spell) {
+        std::string cid = "full|A" + std::to_string(A) + "|n" + std::to_string(n) + "|s" + std::to_string(spell);
+        if(!vp::want(cid)) continue;
+        vp::current_case() = cid; vp::state(); vp::eval(); vp::nontrivial(vp::fnv(cid));
+        const char *evname = spell ? "undo_change" : "/undo_change";
+        rtosc::UndoHistory h;
+        std::vector<std::pair<std::string, int>> got;
+        h.setCallback([&](const char *m) { ref::Decoded d = ref::decode((const uint8_t *)m, rtosc_message_length(m, 512)); if(d.ok && d.args.size() == 1 && d.types == "i") got.push_back({d.addr, (int)d.args[0].u32}); else got.push_back({"<undecodable>", 0}); });
+        vp::g_now = 3000000;
+        std::vector<std::string> addrs;
+        for(int k = 0; k < n; ++k) { std::string a(A, 'r'); a[0] = '/'; a[1] = (char)('a' + k); if(A > 2) a[A - 1] = (char)('A' + k); addrs.push_back(a); }
+        for(int k = 0; k < n; ++k) { char msg[512]; rtosc_message(msg, sizeof msg, evname, "sii", addrs[k].c_str(), 100 + k, 200 + k); h.recordEvent(msg); vp::transition(); }
+        const int kept = n > 20 ? 20 : n, first = n - kept;
+        const std::string cls = std::string(spell ? "event-named-undo_change" : "event-named-/undo_change") + (A * kept > 600 ? ",long-seek" : ",short-seek");
+        bool ok = true;
+        if((int)h.size() != kept || (int)h.getPos() != kept) { vp::violation("record|size-or-pos-after-record|" + cls, cid, std::to_string(n) + " events on distinct addresses of " + std::to_string(A) + " characters: size=" + std::to_string(h.size()) + " pos=" + std::to_string(h.getPos()) + ", expected " + std::to_string(kept)); ok = false; }
+        if(ok) {
+            got.clear(); h.seekHistory(-n - 3); vp::transition();
+            std::vector<std::pair<std::string, int>> want; for(int k = n - 1; k >= first; --k) want.push_back({addrs[k], 100 + k});
+            if(got != want) { vp::violation("seek-undo|message-count|" + cls, cid, "one seek back over " + std::to_string(kept) + " events with addresses of " + std::to_string(A) + " characters emitted " + std::to_string(got.size()) + " messages" + (got.size() == want.size() ? " with wrong content" : "")); ok = false; }
+        }
+        if(ok) {
+            got.clear(); h.seekHistory(+n + 3); vp::transition();
+            std::vector<std::pair<std::string, int>> want; for(int k = first; k < n; ++k) want.push_back({addrs[k], 200 + k});
+            if(got != want) vp::violation("seek-redo|message-count|" + cls, cid, "one seek forward over " + std::to_string(kept) + " events with addresses of " + std::to_string(A) + " characters emitted " + std::to_string(got.size()) + " messages" + (got.size() == want.size() ? " with wrong content" : ""));
+        }
+        vp::outcome("full-seek:" + cls); vp::trace();
+    }
+    vp::bound("full_seeks", "5, 20 and 25 events on distinct addresses of 3..240 characters recorded in one second, undone and redone by a single seek; event message spelled /undo_change and undo_change");
+}
+
 int main(int argc, char **argv)
 {
     vp::init(argc, argv, "C15");
     long_addresses();
+    full_seeks();
     bfs::Engine<Sys> E;
     const bool T = vp::thorough();
     E.max_depth = T ? 8 : 5;
